@@ -87,7 +87,7 @@ def _wrap(ctx: str, cond: str) -> str:
 
 def _observe(src: str, data: dict):
     env = envs.make_env(CFG)
-    o = oc.outcome_of(lambda: env.from_string(src).render(**data))
+    o = oc.render(src, lambda: env.from_string(src), **data)
     if o[0] == "ok":
         if o[1] == "T":
             return True
